@@ -1,16 +1,21 @@
 (* Corr/C12.v — case type and predicates of the correspondence check of C12 (secret rewriting preserves the rest
    of the document). *)
 From Verif Require Import Base.Bytes Base.Wire Model.Envelope Model.YamlTree Model.Crypt Src.SrcCrypt Corr.CryptWire.
+From Verif Require Model.Interp.
 
 (* what the implementation did *)
 Inductive outcome :=
-| OOk (out : ynode) (new_diags : N)     (* output text re-read by yaml.v3; load diagnostics the input did not have *)
-| OErr (e : rw_error)
-| OBad.                                  (* output not readable as one YAML document / unexpected error kind *)
+| OOk (out : ynode) (new_secret new_other : N)
+    (* output text re-read by yaml.v3; load diagnostics the input did not have, split into the class of the known
+       finding C12-interp ("secret values must be string literals") and every other diagnostic *)
+| OErr (e : rw_error)                    (* an error was returned / a run-time panic was recovered (EPanic) *)
+| OBad                                   (* output not readable as one YAML document / unexpected error kind *)
+| OCrash.                                (* the call killed the process (fatal stack overflow) or did not return *)
 
 Record case := mkCase {
   c_enc : bool;            (* true: EncryptSecrets, false: DecryptSecrets *)
   c_key : N; c_pad : nat;  (* toy cipher *)
+  c_in_diags : N;          (* number of diagnostics eval.LoadYAMLBytes reports for the input text *)
   c_in : ynode;            (* yaml.v3 node tree of the input text *)
   c_out : outcome
 }.
@@ -18,17 +23,130 @@ Record case := mkCase {
 Definition model (c : case) : result ynode :=
   if c_enc c then m_encrypt_doc (c_key c) (c_pad c) (c_in c) else m_decrypt_doc (c_key c) (c_pad c) (c_in c).
 
-(* implementation vs model: the re-read output tree must be the model's marshalled tree, up to what re-reading
-   does (resolved tags) and presentation (scalar styles, spelling of null) *)
-(* outside the part of yaml.v3's emitter that is assumed to round trip (Model/YamlTree.v block_unsafe_value) no
-   prediction is made for the re-read tree *)
-Definition codec_unsafe_case (c : case) : bool :=
-  match model c with ROk y => codec_tolerated y | RErr _ => false end.
+(* ---- foot comments that yaml.v3 re-attaches -------------------------------------------------------------------
+   The property's accepted subset names head and line comments.  Foot comments are generated as well; yaml.v3 gives
+   back most of them where they were, with exceptions that have nothing to do with esc (all visible with yaml.v3
+   alone: parse, emit, parse):
+     (a) the foot comment of a mapping key whose value is a collection (or becomes one: `fn::secret: text` is rewritten
+         to a nested mapping) is written without its blank line and re-read as the foot comment of the LAST key inside
+         that collection: same text, same place in the text, other node;
+     (b) a comment that is separated from its node by a blank line is stored with a trailing line feed, which is
+         not written back;
+     (c) a head comment of two paragraphs (a blank line inside it) is split: the first paragraph is re-read as the
+         foot comment of the preceding sibling;
+     (d) the foot comment of a block scalar VALUE is re-read as the head comment of the next key.
+   A document with a foot comment, or with a comment that ends in / contains an empty line ([unstable_trivia], decided
+   on the INPUT tree; documents with head and line comments only are never in it) is judged by the weak projection
+   below instead of node-by-node equality: the tree with head and foot comments erased (line comments kept) must be
+   equal, and the sequence of ALL comment lines and scalars in textual order (secret arguments as holes) must be equal.
+   So a head / foot comment may only change the node it hangs on among the nodes that meet at the same place of the
+   text; it cannot disappear, change, or move across a scalar.  Counted in the evidence (distribution). *)
+Definition lf : string := String (ascii_of_N 10) EmptyString.
 
+Fixpoint rtrim_lf_rev (r : string) : string :=      (* r is reversed *)
+  match r with
+  | String c r' => if (N_of_ascii c =? 10) then rtrim_lf_rev r' else r
+  | EmptyString => r
+  end.
+Definition trim_lf (s : string) : string := rev_string (rtrim_lf_rev (rev_string s)).
+Definition ends_lf (s : string) : bool :=
+  match rev_string s with String c _ => N_of_ascii c =? 10 | EmptyString => false end.
+
+Definition blank_inside (s : string) : bool := scontains (lf +++ lf) s.
+Definition meta_ends_lf (m : ymeta) : bool :=
+  ends_lf (y_head m) || ends_lf (y_line m) || ends_lf (y_foot m)
+  || blank_inside (y_head m) || blank_inside (y_line m) || blank_inside (y_foot m).
+Definition has_foot (m : ymeta) : bool := negb (String.eqb (y_foot m) "").
+Definition node_meta (y : ynode) : ymeta :=
+  match y with YScalar m | YSeq m _ | YMap m _ | YOther _ m => m end.
+Definition is_coll (y : ynode) : bool := match y with YSeq _ _ | YMap _ _ => true | _ => false end.
+
+Fixpoint unstable_trivia (y : ynode) : bool :=
+  meta_ends_lf (node_meta y) || has_foot (node_meta y) ||
+  match y with
+  | YScalar _ | YOther _ _ => false
+  | YSeq _ items => existsb unstable_trivia items
+  | YMap _ entries =>
+      existsb (fun kv : ynode * ynode => let (k, v) := kv in unstable_trivia k || unstable_trivia v) entries
+  end.
+
+(* the tree with head and foot comments erased and the line comments trimmed *)
+Definition defoot (m : ymeta) : ymeta :=
+  mkMeta (y_tag m) (y_style m) (y_value m) "" (trim_lf (y_line m)) "".
+
+Fixpoint defoot_tree (y : ynode) : ynode :=
+  match y with
+  | YScalar m => YScalar (defoot m)
+  | YSeq m items => YSeq (defoot m) (map defoot_tree items)
+  | YMap m entries => YMap (defoot m) (map (fun kv : ynode * ynode => let (k, v) := kv in (defoot_tree k, defoot_tree v)) entries)
+  | YOther k m => YOther k (defoot m)
+  end.
+
+(* comments and scalars in textual order; [holes]: the argument of a secret is one anonymous token *)
+(* the non-empty lines of a comment, each as one token *)
+Fixpoint lines_acc (kind : string) (s : string) (cur : string) : list string :=      (* cur is reversed *)
+  let flush := match cur with EmptyString => [] | _ => [kind +++ rev_string cur] end in
+  match s with
+  | EmptyString => flush
+  | String c r => if N_of_ascii c =? 10 then flush ++ lines_acc kind r EmptyString else lines_acc kind r (String c cur)
+  end.
+Definition tok (kind : string) (s : string) : list string := lines_acc kind s EmptyString.
+
+Definition before (m : ymeta) : list string := tok "C" (y_head m).
+Definition after (m : ymeta) : list string := tok "L" (y_line m) ++ tok "C" (y_foot m).
+
+Definition hole_tokens (t : ymeta) : list string := before t ++ ["HOLE"] ++ after t.
+
+Definition arg_tokens (v : ynode) : option (list string) :=
+  match v with
+  | YScalar t => Some (hole_tokens t)
+  | YMap im [(YScalar k2, YScalar t)] => Some (before im ++ before k2 ++ hole_tokens t ++ after k2 ++ after im)
+  | _ => None
+  end.
+
+Fixpoint stream (holes : bool) (y : ynode) : list string :=
+  match y with
+  | YScalar m => before m ++ ["S" +++ (if String.eqb (y_tag (content_scalar m)) tag_null then "" else y_value m)] ++ after m
+  | YSeq m items => before m ++ flat_map (stream holes) items ++ after m
+  | YMap m entries =>
+      match (if holes then ysecret crypt_fn_secret crypt_key_ciphertext y else None), entries with
+      | Some _, [(YScalar km, v)] =>
+          match arg_tokens v with
+          | Some ts => before m ++ before km ++ ["S" +++ y_value km] ++ tok "L" (y_line km) ++ ts ++ tok "C" (y_foot km) ++ after m
+          | None => before m ++ after m
+          end
+      | _, _ =>
+          before m
+          ++ flat_map (fun kv : ynode * ynode =>
+                         let (k, v) := kv in
+                         before (node_meta k) ++ ["S" +++ y_value (node_meta k)] ++ tok "L" (y_line (node_meta k))
+                         ++ stream holes v ++ tok "C" (y_foot (node_meta k))) entries
+          ++ after m
+      end
+  | YOther _ m => before m ++ after m
+  end.
+
+Definition weak_eq (holes : bool) (a b : ynode) : bool :=
+  ynode_eqb (defoot_tree a) (defoot_tree b) && list_eqb String.eqb (stream holes a) (stream holes b).
+
+(* strict, or weak for the documents with re-attachable comments *)
+Definition same_content (c : case) (y out : ynode) : bool :=
+  if unstable_trivia (c_in c) then weak_eq false (content y) (content out)
+  else ynode_eqb (content y) (content out).
+
+Definition same_skeleton (c : case) (out : ynode) : bool :=
+  if unstable_trivia (c_in c)
+  then ynode_eqb (defoot_tree (m_skeleton (c_in c))) (defoot_tree (m_skeleton out))
+       && list_eqb String.eqb (stream true (c_in c)) (stream true out)
+  else ynode_eqb (m_skeleton (c_in c)) (m_skeleton out).
+
+(* implementation vs model: the re-read output tree must be the model's marshalled tree, up to what re-reading
+   does (resolved tags) and presentation (scalar styles, spelling of null).  No allowance is left: the class of
+   strings yaml.v3 cannot write as block scalars died with fix 9b9d633 (MarshalYAML quotes them, and so does the
+   model: Model/YamlTree.v block_guard).  A crash is never predicted. *)
 Definition mismatch (c : case) : bool :=
   match model c, c_out c with
-  | ROk y, OOk out _ => negb (codec_tolerated y) && negb (ynode_eqb (content y) (content out))
-  | ROk y, OBad => negb (codec_tolerated y)
+  | ROk y, OOk out _ _ => negb (same_content c y out)
   | RErr e, OErr e' => negb (err_eqb e e')
   | _, _ => true
   end.
@@ -40,68 +158,136 @@ Definition in_subset (c : case) : bool := std_tree (c_in c).
 Definition skeleton_differs (c : case) : bool :=
   in_subset c &&
   match c_out c with
-  | OOk out _ => negb (ynode_eqb (m_skeleton (c_in c)) (m_skeleton out))
-  | OErr _ => false
+  | OOk out _ _ => negb (same_skeleton c out)
+  | OErr _ | OCrash => false
   | OBad => true
   end.
 
-Definition new_diagnostics (c : case) : bool :=
-  in_subset c && match c_out c with OOk _ nd => 0 <? nd | _ => false end.
+Definition new_diag_count (c : case) : N :=
+  match c_out c with OOk _ ns no => ns + no | _ => 0 end.
 
-Definition spec_fail (c : case) : bool := skeleton_differs c || new_diagnostics c.
+Definition new_diagnostics (c : case) : bool := in_subset c && (0 <? new_diag_count c).
+
+(* a VALID document: it loads without any diagnostic (so every fn::secret is well-formed for the expression parser
+   and for rewriteYAML's decoder), and - for decryption - every ciphertext in it is an envelope the decrypter of this
+   case opens.  Computed from the input alone (the load diagnostics are the implementation's own report on the input,
+   the envelope format and the toy cipher are the harness's). *)
+Definition secret_opens (c : case) (s : string + string) : bool :=
+  match s with
+  | inr repr =>
+      match decode_ct params repr with
+      | DOk ct => match toy_dec (c_key c) (c_pad c) ct with Some _ => true | None => false end
+      | _ => false
+      end
+  | inl _ => true
+  end.
+
+Definition valid_input (c : case) : bool :=
+  (c_in_diags c =? 0) && (c_enc c || forallb (secret_opens c) (m_ysecrets (c_in c))).
+
+(* the rewrite of a valid document of the subset must succeed: an error (of any kind) is a failure of the property *)
+Definition refused_valid (c : case) : bool :=
+  in_subset c && valid_input c && match c_out c with OErr _ => true | _ => false end.
+
+(* a run-time panic or a fatal crash / hang is a failure on every input that is a YAML document at all *)
+Definition crashed (c : case) : bool :=
+  match c_out c with OErr EPanic | OCrash => true | _ => false end.
+
+Definition spec_fail (c : case) : bool :=
+  skeleton_differs c || new_diagnostics c || refused_valid c || crashed c.
 
 (* known finding C12-interp: a ciphertext whose plaintext contains an interpolation "${" decrypts to a document
-   the checker rejects (plaintext secrets go through the interpolation parser, ciphertexts are literal) *)
-Definition opens_to_interpolation (c : case) (s : string + string) : bool :=
+   the checker rejects (plaintext secrets go through the interpolation parser, ciphertexts are literal).
+   DESIGN §6 rule 2: a failure is THAT finding only if (a) it is a decryption, (b) the new diagnostics are exactly one
+   "secret values must be string literals" per secret that opens to an interpolation plus the syntax diagnostics the
+   interpolation parser reports for those plaintexts, and nothing else, and (c) the model - which reproduces the
+   rewrite - predicts exactly the tree the implementation wrote. *)
+Definition interp_plaintext (c : case) (s : string + string) : option string :=
   match s with
   | inr repr =>
       match decode_ct params repr with
       | DOk ct => match toy_dec (c_key c) (c_pad c) ct with
-                  | Some p => match unescape p with None => true | Some _ => false end
-                  | None => false
+                  | Some p => match unescape p with None => Some p | Some _ => None end
+                  | None => None
                   end
-      | _ => false
+      | _ => None
       end
-  | inl _ => false
+  | inl _ => None
   end.
 
-Definition known_interp (c : case) : bool :=
-  negb (c_enc c) && existsb (opens_to_interpolation c) (m_ysecrets (c_in c)).
+Fixpoint filter_map {A B} (f : A -> option B) (l : list A) : list B :=
+  match l with
+  | [] => []
+  | x :: r => match f x with Some y => y :: filter_map f r | None => filter_map f r end
+  end.
 
-(* known finding C12-blockscalar: the document to be written contains a string that yaml.v3 cannot emit as a
-   block scalar (leading line break or tab); the value changes or the output is unreadable *)
-Definition known (c : case) : bool := known_interp c || codec_unsafe_case c.
+(* the part of a document the loader parses as expressions: the value(s) of the top-level key `values`
+   (ast.ParseEnvironment; `imports` holds names, unknown top-level keys are not parsed) *)
+Definition values_subtrees (y : ynode) : list ynode :=
+  match y with
+  | YMap _ entries =>
+      filter_map (fun kv : ynode * ynode =>
+                    let (k, v) := kv in
+                    match k with
+                    | YScalar km => if String.eqb (y_value km) "values" then Some v else None
+                    | _ => None
+                    end) entries
+  | _ => []
+  end.
+
+(* the plaintexts with an interpolation that the loader gets to see, in document order *)
+Definition interp_plaintexts (c : case) : list string :=
+  filter_map (interp_plaintext c) (flat_map m_ysecrets (values_subtrees (c_in c))).
+
+Definition interp_secrets (c : case) : N := N.of_nat (length (interp_plaintexts c)).
+
+(* each such plaintext draws one "secret values must be string literals" and, when the interpolation is malformed
+   ("${a", "${a[}"), the syntax diagnostics of the interpolation parser: their NUMBER is what Model/Interp.v
+   (ast.Interpolate, validated by the check of C02) computes *)
+Definition interp_syntax_diags (c : case) : N :=
+  fold_right N.add 0 (map (fun p => snd (Model.Interp.parse_interp p)) (interp_plaintexts c)).
+
+Definition known_interp (c : case) : bool :=
+  negb (c_enc c) && (0 <? interp_secrets c)
+  && match c_out c with
+     | OOk _ ns no => (ns =? interp_secrets c) && (no =? interp_syntax_diags c)
+     | _ => false
+     end
+  && negb (mismatch c).
+
+Definition known (c : case) : bool := known_interp c.
 
 Definition spec_fail_new (c : case) : bool :=
-  (skeleton_differs c && negb (codec_unsafe_case c)) || (new_diagnostics c && negb (known c)).
+  skeleton_differs c || (new_diagnostics c && negb (known c)) || refused_valid c || crashed c.
 Definition spec_fail_known (c : case) : bool := spec_fail c && negb (spec_fail_new c).
 
-(* non-trivial: at least one secret is rewritten, or the rewrite is refused *)
+(* non-trivial: at least one secret is rewritten, or the rewrite is refused / dies *)
 Definition nontrivial (c : case) : bool :=
   existsb (fun s : string + string => match s with inl _ => c_enc c | inr _ => negb (c_enc c) end)
           (m_ysecrets (c_in c))
-  || match c_out c with OErr _ => true | _ => false end.
+  || match c_out c with OErr _ | OCrash => true | _ => false end.
 
 (* ---- wire ---- *)
 Definition dec_outcome (x : sexp) : option outcome :=
   match x with
-  | SList [Atom "ok"; t; nd] =>
-      match dec_tree t, atom_N nd with Some y, Some n => Some (OOk y n) | _, _ => None end
+  | SList [Atom "ok"; t; ns; no] =>
+      match dec_tree t, atom_N ns, atom_N no with Some y, Some a, Some b => Some (OOk y a b) | _, _, _ => None end
   | SList [Atom "err"; e] => match dec_err e with Some e => Some (OErr e) | None => None end
   | Atom "bad" => Some OBad
+  | Atom "crash" => Some OCrash
   | _ => None
   end.
 
 Definition decode (x : sexp) : option case :=
   match x with
-  | SList [Atom "c12"; op; key; pad; tin; out] =>
-      match atom_bool op, atom_N key, atom_nat pad with
-      | Some op, Some key, Some pad =>
+  | SList [Atom "c12"; op; key; pad; ind; tin; out] =>
+      match atom_bool op, atom_N key, atom_nat pad, atom_N ind with
+      | Some op, Some key, Some pad, Some ind =>
           match dec_tree tin, dec_outcome out with
-          | Some y, Some o => Some (mkCase op key pad y o)
+          | Some y, Some o => Some (mkCase op key pad ind y o)
           | _, _ => None
           end
-      | _, _, _ => None
+      | _, _, _, _ => None
       end
   | _ => None
   end.
